@@ -20,7 +20,8 @@ RULE = ("E1/E2 over a BF2 generator: ('blob', type, size, line size, grouping) e
         "direct unpack/convert of memory images with gaps at every subset of <= 3 positions; ('filter', bytes) every platform filter of <= 3 "
         "entries over 3 hardware ids x negate x continue. Oracle: payload == the image the lines were generated from; tags, order, comments and "
         "accept/reject == reference importer; filter text has the same truth table as the bytes. Distinct = case tuples."
-        " Instruction cases are also imported through a file name (same result as through a stream); CRC values with 1, 6, 7, 9, 10 digits, lower case, empty, non-hex; a header / instruction named like the parser's internal data marker.")
+        " Instruction cases are also imported through a file name (same result as through a stream); CRC values with 1, 6, 7, 9, 10 digits, lower case, empty, non-hex; a header / instruction named like the parser's internal data marker."
+        ' Multi-section files include sections under an interface the converter does not support (left out, data and all); header comments whose value contains a colon.')
 ASSUMPTIONS = [
     "the BF2 grammar (':' lines = index, tag type, length, len|offset|payload; FE/FF markers; '#>' instructions; '##' header values) is "
     "reverse-engineered from the importer because the repository contains no BF2 sample",
